@@ -82,7 +82,7 @@ def refresh_facts(cfg='dev', repo=None):
     ensure_driver()
     fdir = facts_dir(cfg, repo)
     os.makedirs(fdir, exist_ok=True)
-    tgt = os.path.join(VERIF, '.tgt', cfg)   # shared by all repos: dependencies are compiled once
+    tgt = os.path.join(VERIF, '.tgt', cfg + os.environ.get('XEH_TGT_SUFFIX', ''))   # shared by all repos: dependencies are compiled once
     os.makedirs(tgt, exist_ok=True)
     lock = open(os.path.join(fdir, '.lock'), 'w')
     fcntl.flock(lock, fcntl.LOCK_EX)
@@ -132,6 +132,28 @@ def refresh_facts(cfg='dev', repo=None):
 
 class BuildFailed(Exception):
     pass
+
+
+def run_witnesses():
+    """compile-fail witnesses (/verif/witness, doctests with error codes; nightly).  Returns a list of
+    (name, kind, ok) or None when the analysed repo is a scratch copy (the crate path-depends on /repo)."""
+    if os.path.abspath(REPO) != '/repo':
+        return None
+    wdir = os.path.join(VERIF, 'witness')
+    try:
+        import shutil
+        shutil.copy(os.path.join(REPO, 'Cargo.lock'), os.path.join(wdir, 'Cargo.lock'))
+    except Exception:
+        pass
+    env = dict(os.environ, CARGO_NET_OFFLINE='true', CARGO_TARGET_DIR=os.path.join(VERIF, '.tgt', 'witness'))
+    rc, out = sh(['cargo', '+nightly', 'test', '--doc', '--offline'], env=env, cwd=wdir, timeout=900)
+    res = []
+    import re
+    for m in re.finditer(r'^test src/lib.rs - (\w+) \(line \d+\)( - compile fail)? \.\.\. (\w+)', out, re.M):
+        res.append((m.group(1), 'compile_fail' if m.group(2) else 'twin', m.group(3) == 'ok'))
+    if not res:
+        raise RuntimeError('witness crate produced no doctest results:\n' + out[-3000:])
+    return res
 
 
 # ------------------------------------------------------------------ results
